@@ -30,5 +30,5 @@ UpdAllowed(ev) ==
     THEN /\ Eq(ev.after, ev.plain_after)
          /\ Eq(ev.ret, ev.plain_ret)
          /\ ("same_type" \in DOMAIN ev => ev.same_type)
-    ELSE ev.volatile_target /\ ~ev.fits
+    ELSE ev.out = "abort" /\ ev.volatile_target /\ ~ev.fits
 =============================================================================
